@@ -1,5 +1,7 @@
 import RisorModel.C19.Model
 import RisorModel.Generated.C19
+import RisorModel.C19.Wide
+import RisorModel.Generated.C19Wide
 /-!
 C19 ties: the wrapper inventory regenerated from `modules/strings/strings.go` and
 `strings_gen.go` on this run (exported name, Go function called and the order in which the
@@ -24,6 +26,17 @@ theorem stringsSigs_tie : Risor.Generated.C19.stringsSigs = stringsSigs := by de
     path to a result (a fast path, another library call, a branch on the pattern or on an
     argument) makes the regenerated entry `Body.other` and this tie fail. -/
 theorem rxSigs_tie : Risor.Generated.C19.rxSigs = rxSigs := by decide
+
+/-- the inventory of the hand-written wrappers of modules/base64, bytes, filepath, math and
+    strconv as regenerated from the source on this run (go/ast + go/types; per wrapper: module,
+    name, Go function by package path, converters in argument order, order of the passed values,
+    result constructor, arity bounds, defaults of optional arguments, trailing constants of the
+    call, error result as an error value, shape of the body) equals the reviewed table `wideSigs`
+    that `C19_wide_agree` / `C19_wide_glue` / `C19_wide_no_panic` are stated over.  A wrapper that
+    forwards to another Go function, swaps two arguments, drops or changes a converter, changes
+    an arity bound, a default or a constant, or grows a second path to a result (its shape
+    becomes `.other`) breaks this tie even if no test calls it. -/
+theorem wideSigs_tie : Risor.Generated.C19Wide.wideSigs = wideSigs := by decide
 
 /-- `object.AsBytes` as regenerated from object/typeconv.go on this run treats EVERY argument
     object — every value, every buffer, every file — the way the table `asBytesCases` does that
